@@ -607,7 +607,7 @@ func (rn *vC20bRunner) script(overlap bool, uonOverlap bool) *vC20bCase {
 					ended("error")
 				}
 			case "play", "pause", "record":
-				if se == nil {
+				if se == nil || sid == "" { // without a Session header the request reaches no session (501)
 					continue
 				}
 				m := map[string]base.Method{"play": base.Play, "pause": base.Pause, "record": base.Record}[kind]
@@ -621,7 +621,7 @@ func (rn *vC20bRunner) script(overlap bool, uonOverlap bool) *vC20bCase {
 					ended("error")
 				}
 			case "teardown":
-				if se == nil {
+				if se == nil || sid == "" {
 					continue
 				}
 				res := request(base.Teardown, cl.base+pathName, hdr(nil), nil)
